@@ -432,6 +432,14 @@ struct TestObject : public ParameterizedObject
   using ParameterizedObject::params_end;
 };
 
+struct Tagged
+{
+  int id, version;
+  Tagged(int i = 0, int v = 0) : id(i), version(v) {}
+  bool operator==(const Tagged &o) const { return id == o.id; }
+};
+static inline bool sameBits(float a, float b) { return memcmp(&a, &b, sizeof a) == 0; }
+
 enum PType
 {
   T_NONE = -1,  // created by findParam(name,true), never set: holds an empty Any
@@ -440,6 +448,7 @@ enum PType
   T_BOOL,
   T_STRING,
   T_VEC3F,
+  T_TAGGED,  // a user type whose operator== looks at the id only: two values can compare equal and still differ
   T_COUNT,
   T_DOUBLE = T_COUNT,  // read-only types: never stored, so they can never match
   T_UINT,
@@ -448,7 +457,7 @@ enum PType
 };
 static const char *ptypeName(int t)
 {
-  static const char *n[] = {"none", "int", "float", "bool", "string", "vec3f", "double", "unsigned", "const char*"};
+  static const char *n[] = {"none", "int", "float", "bool", "string", "vec3f", "Tagged", "double", "unsigned", "const char*"};
   return n[t + 1];
 }
 
@@ -460,6 +469,7 @@ struct PVal
   bool b;
   std::string s;
   vec3f v;
+  Tagged g;
   PVal() : type(T_NONE), i(0), f(0), b(false), v(0.f) {}
   bool sameAs(const PVal &o) const
   {
@@ -467,10 +477,11 @@ struct PVal
       return false;
     switch (type) {
     case T_INT: return i == o.i;
-    case T_FLOAT: return f == o.f;
+    case T_FLOAT: return sameBits(f, o.f);
     case T_BOOL: return b == o.b;
     case T_STRING: return s == o.s;
-    case T_VEC3F: return v.x == o.v.x && v.y == o.v.y && v.z == o.v.z;
+    case T_VEC3F: return sameBits(v.x, o.v.x) && sameBits(v.y, o.v.y) && sameBits(v.z, o.v.z);
+    case T_TAGGED: return g.id == o.g.id && g.version == o.g.version;
     }
     return true;
   }
@@ -482,6 +493,7 @@ struct PVal
     case T_BOOL: return b ? "bool true" : "bool false";
     case T_STRING: return "string '" + s + "'";
     case T_VEC3F: return "vec3f(" + std::to_string(v.x) + "," + std::to_string(v.y) + "," + std::to_string(v.z) + ")";
+    case T_TAGGED: return "Tagged{id " + std::to_string(g.id) + ", version " + std::to_string(g.version) + "}";
     }
     return "<empty>";
   }
@@ -557,6 +569,10 @@ struct ParamRun
       o.type = T_VEC3F, o.v = a.get<vec3f>();
       ++typesMatching;
     }
+    if (a.is<Tagged>()) {
+      o.type = T_TAGGED, o.g = a.get<Tagged>();
+      ++typesMatching;
+    }
     return o;
   }
 
@@ -629,15 +645,16 @@ struct ParamRun
       v.i = c[r.below(5)];
     } break;
     case T_FLOAT: {
-      static const float c[] = {0.f, 1.f, -2.5f, 42.f, 1e30f};
-      v.f = c[r.below(5)];
+      static const float c[] = {0.f, -0.f, 1.f, -2.5f, 42.f, 1e30f, 0.f, -0.f};
+      v.f = c[r.below(8)];
     } break;
     case T_BOOL: v.b = r.chance(1, 2); break;
     case T_STRING: {
       static const char *c[] = {"", "x", "1", "true", "a string longer than the small string optimisation buffer"};
       v.s = c[r.below(5)];
     } break;
-    case T_VEC3F: v.v = vec3f((float)r.range(-1, 1), (float)r.range(0, 2), 42.f); break;
+    case T_VEC3F: v.v = vec3f((float)r.range(-1, 1), (float)r.range(0, 2), 42.f); v.v.x = r.chance(1, 2) ? v.v.x : -v.v.x; break;
+    case T_TAGGED: v.g = Tagged((int)r.below(3), (int)r.below(1000)); break;
     }
     return v;
   }
@@ -650,6 +667,7 @@ struct ParamRun
     case T_BOOL: obj.setParam<bool>(name, v.b); break;
     case T_STRING: obj.setParam<std::string>(name, v.s); break;
     case T_VEC3F: obj.setParam<vec3f>(name, v.v); break;
+    case T_TAGGED: obj.setParam<Tagged>(name, v.g); break;
     }
   }
 
@@ -669,7 +687,7 @@ struct ParamRun
     } break;
     case T_FLOAT: {
       float d = r.chance(1, 2) ? -777.5f : 0.125f, got = obj.getParam<float>(name, d);
-      ok      = got == (match ? ref[at].val.f : d);
+      ok      = sameBits(got, match ? ref[at].val.f : d);  // +0 and -0 are different values to write and read back
       gotDesc = "float " + std::to_string(got) + " (default " + std::to_string(d) + ")";
     } break;
     case T_BOOL: {
@@ -685,8 +703,14 @@ struct ParamRun
     case T_VEC3F: {
       vec3f d(-7.f, -7.f, r.chance(1, 2) ? -7.f : 9.f), got = obj.getParam<vec3f>(name, d);
       vec3f e = match ? ref[at].val.v : d;
-      ok      = got.x == e.x && got.y == e.y && got.z == e.z;
+      ok      = sameBits(got.x, e.x) && sameBits(got.y, e.y) && sameBits(got.z, e.z);
       gotDesc = "vec3f(" + std::to_string(got.x) + "," + std::to_string(got.y) + "," + std::to_string(got.z) + ")";
+    } break;
+    case T_TAGGED: {
+      Tagged d(-5, -5), got = obj.getParam<Tagged>(name, d);
+      Tagged e = match ? ref[at].val.g : d;
+      ok      = got.id == e.id && got.version == e.version;
+      gotDesc = "Tagged{id " + std::to_string(got.id) + ", version " + std::to_string(got.version) + "}";
     } break;
     case T_DOUBLE: {
       double d = -777.25, got = obj.getParam<double>(name, d);
@@ -915,7 +939,7 @@ int main(int argc, char **argv)
   vh::note("operation_families",
            "FlatMap: operator[] insert/overwrite/read, at const/non-const (value, throw), at_index const/non-const, contains, erase "
            "(first/middle/last/only/absent), clear, reserve, size, empty, begin/end, const begin/end, cbegin/cend, rbegin/rend, const "
-           "rbegin/rend, crbegin/crend, writes through iterators, copy/assign; ParameterizedObject: setParam<int,float,bool,string,vec3f>, "
+           "rbegin/rend, crbegin/crend, writes through iterators, copy/assign; ParameterizedObject: setParam<int,float (incl. -0),bool,string,vec3f,user type with an id-only operator==>, "
            "getParam<those + double,unsigned,const char*>, hasParam, removeParam, resetAllParamQueryStatus, findParam(add / no add), "
            "params_begin/end");
   return vh::finish();
